@@ -21,12 +21,12 @@ AXES = {
     "fw": ["allow_all", "dmz_s0", "asym", "one_s1", "second_public_only", "inner_empty"],
     "hostfw": ["none", "deny_pivot", "deny_same_subnet", "deny_other"],
     "sw": ["1os1s1p", "2os2s2p", "1os2s1p", "2os1s2p"],
-    "exploits": ["e0", "e0e1", "e0e2", "e1e3", "e0e3"],
-    "privescs": ["none", "any_root", "os_root", "user_grant", "two"],
+    "exploits": ["e0", "e0e1", "e0e2", "e1e3", "e0e3", "e0e0b"],
+    "privescs": ["none", "any_root", "os_root", "user_grant", "two", "dup_pair", "same_os"],
     "prob": ["one", "half", "mixed_zero"],
     "cost": ["unit", "frac"],
     "values": ["zero", "pos_neg", "frac"],
-    "discovery": ["zero", "one", "frac"],
+    "discovery": ["zero", "one", "frac", "big_neg"],
     "sensitive": ["last", "two_subnets", "same_subnet", "public"],
     "step_limit": [None, 1, 3],
     "bounds": ["default", "enlarged"],
@@ -103,18 +103,20 @@ def build(choice, name=None):
         "e1": {"service": srvs[0], "os": None, "access": ROOT},
         "e2": {"service": s1, "os": os1, "access": USER},
         "e3": {"service": s1, "os": None, "access": USER},
+        "e0b": {"service": srvs[0], "os": oss[0], "access": ROOT},   # second exploit for the SAME (service, os)
     }
-    names = {"e0": ["e0"], "e0e1": ["e0", "e1"], "e0e2": ["e0", "e2"], "e1e3": ["e1", "e3"], "e0e3": ["e0", "e3"]}[choice["exploits"]]
+    names = {"e0": ["e0"], "e0e1": ["e0", "e1"], "e0e2": ["e0", "e2"], "e1e3": ["e1", "e3"], "e0e3": ["e0", "e3"],
+             "e0e0b": ["e0", "e0b"]}[choice["exploits"]]
     spec["exploits"] = {}
     seen_keys = set()
     for k, nm in enumerate(names):
         d = dict(edefs[nm])
         key = (d["service"], d["os"])
-        if key in seen_keys:      # collapses when only one service / OS exists
+        if key in seen_keys and nm != "e0b":      # collapses when only one service / OS exists
             continue
         seen_keys.add(key)
-        d["prob"] = prob_of[int(nm[1])]
-        d["cost"] = cost_of[int(nm[1])]
+        d["prob"] = prob_of[int(nm[1])] if nm != "e0b" else prob_of[3]
+        d["cost"] = cost_of[int(nm[1])] if nm != "e0b" else 3
         spec["exploits"][nm] = d
     pdefs = {
         "any_root": {"pe0": {"process": procs[0], "os": None, "access": ROOT}},
@@ -123,13 +125,17 @@ def build(choice, name=None):
                        "pe1": {"process": procs[0], "os": os1, "access": ROOT}},
         "two": {"pe0": {"process": procs[0], "os": None, "access": ROOT},
                 "pe1": {"process": p1, "os": os1, "access": ROOT}},
+        "same_os": {"pe0": {"process": procs[0], "os": None, "access": ROOT},
+                    "pe1": {"process": p1, "os": None, "access": ROOT}},
+        "dup_pair": {"pe0": {"process": procs[0], "os": None, "access": USER},
+                     "pe0b": {"process": procs[0], "os": None, "access": ROOT}},
         "none": {},
     }[choice["privescs"]]
     spec["privescs"] = {}
     seen_keys = set()
     for k, (nm, d) in enumerate(pdefs.items()):
         key = (d["process"], d["os"])
-        if key in seen_keys:
+        if key in seen_keys and nm != "pe0b":
             continue
         seen_keys.add(key)
         d = dict(d)
@@ -149,7 +155,8 @@ def build(choice, name=None):
         {"os": oss[0], "services": [s1], "processes": list(procs)},
     ]
     val_cycle = {"zero": [0, 0, 0, 0, 0], "pos_neg": [1, -3, 0, 1, -3], "frac": [0.5, 0, 0.5, 1, 0]}[choice["values"]]
-    dv_cycle = {"zero": [0, 0, 0, 0, 0], "one": [1, 1, 1, 1, 1], "frac": [0.5, 0, 1, 0.5, 0]}[choice["discovery"]]
+    dv_cycle = {"zero": [0, 0, 0, 0, 0], "one": [1, 1, 1, 1, 1], "frac": [0.5, 0, 1, 0.5, 0],
+                "big_neg": [25, -2, 25, 0, 25]}[choice["discovery"]]
     spec["hosts"] = {}
     for i, a in enumerate(addrs):
         h = dict(patterns[i % len(patterns)])
@@ -344,6 +351,18 @@ def corner_specs():
     mk("corner-public-sensitive", sensitive="public", shape="2-1", privescs="none", exploits="e1e3", sw="1os2s1p")
     mk("corner-chain-rev", shape="1-1-1", topo="chain_rev", discovery="one", host_order="reversed")
     mk("corner-reversed-hosts", shape="1-2-1", topo="chain", host_order="reversed", sensitive="two_subnets")
+    # a host whose only attacker-controlled route is a same-subnet neighbour that its host firewall denies
+    sp = build({"shape": "2-2", "topo": "chain", "fw": "allow_all", "hostfw": "none", "sw": "1os2s1p",
+                "exploits": "e0e3", "privescs": "any_root", "prob": "one", "cost": "unit", "values": "zero",
+                "discovery": "zero", "sensitive": "last", "step_limit": None, "bounds": "default",
+                "host_order": "sorted"}, name="corner-same-subnet-only-route")
+    sp["hosts"][(1, 0)].update(services=["s1"], firewall={})
+    sp["hosts"][(1, 1)].update(services=["s0"], os="os0", firewall={(1, 0): ["s0"]})
+    sp["hosts"][(2, 0)].update(services=["s1"], os="os0", firewall={})
+    sp["hosts"][(2, 1)].update(services=["s0"], os="os0", firewall={(2, 0): ["s0"]})
+    sp["firewall"][(0, 1)] = ["s1"]
+    sp["firewall"][(1, 2)] = ["s1"]
+    out.append(sp)
     mk("corner-inner-empty", shape="1-1-1", topo="full", fw="inner_empty", sw="1os2s1p", exploits="e0e3")
     return out
 
